@@ -52,6 +52,7 @@ fn related_artifacts() -> BoxedStrategy<(Artifacts, Artifacts, Vec<(String, Arti
                 let (p, orig) = &pool_v[*a as usize % pool_v.len()];
                 let target = *b as usize % sets.len();
                 let path = match pre {
+                    Some(pre) if k % 3 == 2 => format!("{}{}", pre, p), // glued: starts with the prefix string without being inside it
                     Some(pre) => format!("{}/{}", pre, p),
                     None => p.clone(),
                 };
@@ -66,6 +67,83 @@ fn related_artifacts() -> BoxedStrategy<(Artifacts, Artifacts, Vec<(String, Arti
                 others.push((format!("s{}", i + 1), it.next().unwrap(), it.next().unwrap()));
             }
             (m, p, others)
+        })
+        .boxed()
+}
+
+/// A scenario built around one MATCH rule: exactly one own artifact that satisfies all of the
+/// rule's conditions (kind 0) or misses exactly one of them, followed by DISALLOW *.
+fn match_scenario() -> BoxedStrategy<Spec> {
+    (
+        proptest::option::weighted(0.7, prefix()),
+        proptest::option::weighted(0.5, prefix()),
+        relpath(),
+        0usize..3,
+        0u8..10,
+        0u8..3,
+        any::<bool>(),
+        any::<bool>(),
+    )
+        .prop_map(|(src, dst, q, dig, kind, pat, own_products, with_products)| {
+            let d: Digests = [("sha256".to_string(), DIGEST_POOL_256[dig].to_string())].into();
+            let d_other: Digests = [("sha256".to_string(), DIGEST_POOL_256[(dig + 1) % 3].to_string())].into();
+            let join = |pre: &Option<String>, rest: &str| match pre {
+                Some(p) => format!("{}/{}", p, rest),
+                None => rest.to_string(),
+            };
+            let glue = |pre: &Option<String>, rest: &str| match pre {
+                Some(p) => format!("{}{}", p, rest),
+                None => format!("x{}", rest),
+            };
+            // own artifact and the destination artifact that a *wrong* implementation would pair it with
+            let (own_path, dest_path, dest_digest, dest_on_right_side, dest_step) = match kind {
+                0 | 9 => (join(&src, &q), join(&dst, &q), d.clone(), true, "s1"),
+                1 => (glue(&src, &q), join(&dst, &q), d.clone(), true, "s1"),
+                2 => (glue(&src, &format!("2/{}", q)), join(&dst, &format!("2/{}", q)), d.clone(), true, "s1"),
+                3 => (q.clone(), join(&dst, &q), d.clone(), true, "s1"),
+                4 => (join(&src, &q), join(&dst, &q), d_other.clone(), true, "s1"),
+                5 => (join(&src, &q), join(&dst, &q), d.clone(), false, "s1"),
+                6 => (join(&src, &q), join(&dst, &q), d.clone(), true, "s2"),
+                7 => (join(&src, &format!("{}.other", q)), join(&dst, &format!("{}.other", q)), d.clone(), true, "s1"),
+                _ => (join(&src, &q), glue(&dst, &q), d.clone(), true, "s1"),
+            };
+            let pattern = match pat {
+                0 => "*".to_string(),
+                1 => q.clone(),
+                _ => {
+                    let mut c: Vec<char> = q.chars().collect();
+                    let n = c.len();
+                    c[n - 1] = '?';
+                    c.into_iter().collect()
+                }
+            };
+            let own: Artifacts = [(own_path, d.clone())].into();
+            let dest: Artifacts = [(dest_path, dest_digest)].into();
+            let side_products = if dest_on_right_side { with_products } else { !with_products };
+            let mk = |name: &str| {
+                if name == dest_step {
+                    if side_products {
+                        (name.to_string(), Artifacts::new(), dest.clone())
+                    } else {
+                        (name.to_string(), dest.clone(), Artifacts::new())
+                    }
+                } else {
+                    (name.to_string(), Artifacts::new(), Artifacts::new())
+                }
+            };
+            let rules = vec![
+                RuleSpec::Match { pattern, in_src: src.clone(), products: with_products, in_dst: dst.clone(), from: "s1".into() },
+                RuleSpec::Disallow("*".into()),
+            ];
+            Spec {
+                inspection: false,
+                name: "item".into(),
+                expected_materials: if own_products { vec![] } else { rules.clone() },
+                expected_products: if own_products { rules } else { vec![] },
+                materials: if own_products { Artifacts::new() } else { own.clone() },
+                products: if own_products { own } else { Artifacts::new() },
+                others: vec![mk("s1"), mk("s2")],
+            }
         })
         .boxed()
 }
@@ -165,8 +243,10 @@ impl Property for C03 {
          MATCH with/without IN source and destination prefixes, WITH materials/products, FROM present or absent step; its link with \
          materials/products drawn from a common pool so that created, deleted, modified, unchanged artifacts and nested paths all occur; 0-2 \
          referenced links with equal/different digests and shifted prefixes; normalised relative paths, portable glob patterns; separate \
-         class: a DISALLOW rule whose pattern the matcher cannot interpret. Enumerated: all rule lists of length <=2 (quick) / <=3 \
-         (thorough, product side) over a 31-rule alphabet on a fixed 3-path artifact configuration. Oracle: differential against the \
+         classes: a DISALLOW rule whose pattern the matcher cannot interpret; MATCH scenarios in which one artifact satisfies all of a MATCH \
+         rule's conditions or misses exactly one (glued to the prefix string without a separator, sibling directory, outside the source \
+         prefix, other digest, other side, other step, pattern mismatch, glued destination), followed by DISALLOW *. Enumerated: all rule lists of length <=2 (quick) / <=3 \
+         (thorough, product side) over a 31-rule alphabet on a fixed artifact configuration (incl. a path that merely starts with a prefix string). Oracle: differential against the \
          reference rule engine transcribed from the specification (self-tested on the Python-made demo chain), both directions; via the \
          guarded re-export of the per-item rule application. Non-trivial: at least one rule present and (the reference rejects, or a MATCH \
          with a prefix occurs, or some rule matches while artifacts remain in the queue); distinct by the whole case."
@@ -183,7 +263,7 @@ impl Property for C03 {
         tier.pick(100_000, 5_000_000)
     }
     fn strategy(_tier: Tier) -> BoxedStrategy<Spec> {
-        (any::<bool>(), related_artifacts())
+        let general = (any::<bool>(), related_artifacts())
             .prop_flat_map(|(inspection, (materials, products, others))| {
                 let mut names: Vec<String> = others.iter().map(|o| o.0.clone()).collect();
                 names.push("item".to_string());
@@ -197,14 +277,15 @@ impl Property for C03 {
                     others: others.clone(),
                 })
             })
-            .boxed()
+            .boxed();
+        prop_oneof![8 => general, 2 => match_scenario()].boxed()
     }
     fn enumerate(tier: Tier, worker: usize, workers: usize) -> Box<dyn Iterator<Item = Spec>> {
         let d1: Digests = [("sha256".to_string(), DIGEST_POOL_256[0].to_string())].into();
         let d2: Digests = [("sha256".to_string(), DIGEST_POOL_256[1].to_string())].into();
         // own link: a unchanged-but-modified, b created, d/a deleted
         let materials: Artifacts = [("a".to_string(), d1.clone()), ("d/a".to_string(), d1.clone())].into();
-        let products: Artifacts = [("a".to_string(), d2.clone()), ("b".to_string(), d1.clone())].into();
+        let products: Artifacts = [("a".to_string(), d2.clone()), ("b".to_string(), d1.clone()), ("da".to_string(), d2.clone())].into();
         let others = vec![("s1".to_string(), [("d/a".to_string(), d1.clone())].into(), [("a".to_string(), d2.clone()), ("b".to_string(), d2.clone())].into())];
         let alphabet = small_rules();
         let n = alphabet.len();
